@@ -27,34 +27,42 @@ Fixpoint tplace_end (adds : list targ) (off : Z) : Z :=
   | a :: r => tplace_end r (u32 (alignup off (targ_align a) + targ_size a))
   end.
 
-Inductive wt_field (G : env) (n : nat) (adds : list targ) (f : field) : option value -> Prop :=
+Inductive wt_field (Sc : schema) (G : env) (n : nat) (adds : list targ) (f : field) : option value -> Prop :=
 | WF_absent :
     (forall a, In a adds -> targ_id a <> fid f) ->
     (match fk f with FUnion _ | FUnionVec _ => forall a, In a adds -> targ_id a <> fid f - 1 | _ => True end) ->
-    frequired f = false -> wt_field G n adds f None
+    frequired f = false -> wt_field Sc G n adds f None
 | WF_scalar size al bytes :
-    fk f = FScalar size al -> In (TInline (fid f) size al bytes) adds -> wt_field G n adds f (Some (VBytes bytes))
+    fk f = FScalar size al -> In (TInline (fid f) size al bytes) adds -> wt_field Sc G n adds f (Some (VBytes bytes))
 | WF_string r v k :
     fk f = FString -> In (TOffset (fid f) r) adds -> lookup G r = Some {| en_ty := OString; en_val := v; en_depth := k |} -> (k <= n)%nat ->
-    wt_field G n adds f (Some v)
+    wt_field Sc G n adds f (Some v)
 | WF_vector es al mc r elems k :
     fk f = FVector es al mc -> In (TOffset (fid f) r) adds ->
     lookup G r = Some {| en_ty := OVec es al; en_val := VVec elems; en_depth := k |} -> (k <= n)%nat ->
-    Z.of_nat (length elems) <= mc -> wt_field G n adds f (Some (VVec elems))
+    Z.of_nat (length elems) <= mc -> wt_field Sc G n adds f (Some (VVec elems))
 | WF_strvec r v k :
     fk f = FStringVec -> In (TOffset (fid f) r) adds -> lookup G r = Some {| en_ty := OStrVec; en_val := v; en_depth := k |} -> (k <= n)%nat ->
-    wt_field G n adds f (Some v)
+    wt_field Sc G n adds f (Some v)
 | WF_table t r v k :
     fk f = FTable t -> In (TOffset (fid f) r) adds -> lookup G r = Some {| en_ty := OTable t; en_val := v; en_depth := k |} -> (k <= n)%nat ->
-    wt_field G n adds f (Some v)
+    wt_field Sc G n adds f (Some v)
 | WF_tabvec t r v k :
     fk f = FTableVec t -> In (TOffset (fid f) r) adds -> lookup G r = Some {| en_ty := OTabVec t; en_val := v; en_depth := k |} -> (k <= n)%nat ->
-    wt_field G n adds f (Some v).
+    wt_field Sc G n adds f (Some v)
+| WF_union u code r mem v k :
+    fk f = FUnion u -> code <> 0 -> In (TInline (fid f - 1) 1 1 [code]) adds -> In (TOffset (fid f) r) adds ->
+    union_member Sc u code = Some mem ->
+    lookup G r = Some {| en_ty := member_oty mem; en_val := v; en_depth := k |} -> (k <= n)%nat ->
+    wt_field Sc G n adds f (Some (VUnion code v))
+| WF_union_none u :
+    fk f = FUnion u -> In (TInline (fid f - 1) 1 1 [0]) adds -> (forall a, In a adds -> targ_id a <> fid f) ->
+    frequired f = false -> wt_field Sc G n adds f None.
 
-Inductive wt_fields (G : env) (n : nat) (adds : list targ) : list field -> list (Z * value) -> Prop :=
-| WFS_nil : wt_fields G n adds [] []
-| WFS_absent f r fs : wt_field G n adds f None -> wt_fields G n adds r fs -> wt_fields G n adds (f :: r) fs
-| WFS_present f r v fs : wt_field G n adds f (Some v) -> wt_fields G n adds r fs -> wt_fields G n adds (f :: r) ((fid f, v) :: fs).
+Inductive wt_fields (Sc : schema) (G : env) (n : nat) (adds : list targ) : list field -> list (Z * value) -> Prop :=
+| WFS_nil : wt_fields Sc G n adds [] []
+| WFS_absent f r fs : wt_field Sc G n adds f None -> wt_fields Sc G n adds r fs -> wt_fields Sc G n adds (f :: r) fs
+| WFS_present f r v fs : wt_field Sc G n adds f (Some v) -> wt_fields Sc G n adds r fs -> wt_fields Sc G n adds (f :: r) ((fid f, v) :: fs).
 
 Definition mk (ty : oty) (v : value) (n : nat) : option entry := Some {| en_ty := ty; en_val := v; en_depth := n |}.
 
@@ -72,7 +80,7 @@ Inductive wt_cmd (Sc : schema) : env -> cmd -> env -> Prop :=
     wt_cmd Sc G (COffVec rs) (G ++ [mk (offvec_ty ety) (VOffVec vs) n])
 | WT_table G adds t flds fs n :
     Forall targ_wf adds -> Z.of_nat (length adds) <= 32765 -> tplace_end adds 0 + 4 <= 65535 ->
-    table_fields Sc t = Some flds -> wt_fields G n adds flds fs ->
+    table_fields Sc t = Some flds -> wt_fields Sc G n adds flds fs ->
     wt_cmd Sc G (CTable adds) (G ++ [mk (OTable t) (VTable fs) (S n)]).
 
 Inductive wt_cmds (Sc : schema) : env -> list cmd -> env -> Prop :=
